@@ -54,7 +54,7 @@ RULE = ("Hypothesis-generated basin reference graphs over 1..6 files (shape x ru
         "or a file-type basin defined in a file that is reached through a network "
         "format; distinct = sha1 of the canonical JSON spec")
 BUDGET = {"quick": 1200, "thorough": 16000}
-ESSENTIAL = ["graph:cycle>=2", "graph:selfloop", "graph:remote->file",
+ESSENTIAL = ["id:infix-mapped", "graph:cycle>=2", "graph:selfloop", "graph:remote->file",
              "id:equal", "id:prefix-mapped", "id:prefix-unmapped", "id:unrelated",
              "id:referrer-none", "id:basin-none", "loc:relative", "loc:dangling",
              "loc:second-candidate", "loc:second-after-mismatch", "type:file", "type:http", "type:s3sim",
@@ -169,7 +169,7 @@ def _server():
 SHAPES = ["chain", "cycle", "cycle", "lasso", "diamond", "selfloop", "random",
           "random", "two-cycle"]
 RIDK = (["base"] * 12 + ["ext"] * 4 + ["ext2"] * 2 + ["other"] * 2 + ["md5"] * 2
-        + ["none"] * 2 + ["infix"] * 2)
+        + ["none"] * 2 + ["infix"] * 4)
 
 
 def _shape_edges(shape, k, draw):
@@ -248,8 +248,9 @@ def st_spec(draw):
         typ = draw(st.sampled_from(["file"] * 5 + ["http"] * 3 + ["s3sim"] * 2))
         r, bb = RID[rids[a]], RID[rids[b]]
         mapped = draw(st.sampled_from([False, False, True]))
-        if (r is not None and bb is not None and r != bb and r.startswith(bb)
+        if (r is not None and bb is not None and r != bb and bb in r
                 and draw(st.integers(0, 2)) > 0):
+            # prefix (acceptable when mapped) and infix (never acceptable) relations
             mapped = True
         style = draw(st.sampled_from(["abs", "abs", "rel"]))
         locs = [{"to": b, "style": style}]
@@ -666,6 +667,8 @@ def _count_classes(spec, rec):
                     seen.add("id:equal")
                 elif r.startswith(b):
                     seen.add("id:prefix-mapped" if mapped else "id:prefix-unmapped")
+                elif b in r:
+                    seen.add("id:infix-mapped" if mapped else "id:infix-unmapped")
                 else:
                     seen.add("id:unrelated")
     for c in sorted(seen):
